@@ -1,8 +1,11 @@
 package rsyncd
 
 import (
+	"context"
 	"fmt"
+	"io"
 	"net"
+	"strings"
 )
 
 // --- symbolic stand-ins for the text parsers of package net (symbolic mode only) ---
@@ -198,3 +201,66 @@ func HACL() {
 var verifHarnesses = map[string]func(){
 	"HACL": HACL,
 }
+
+// HACLDaemon (C19, daemon level): a module whose ACL refuses the client must answer with
+// an @ERROR line and nothing else: no "@RSYNCD: OK", the argument lines are not read, no
+// sender or receiver is started (no file-system event). One rule (allow/deny, symbolic
+// IPv4 network) decides for a symbolic IPv4 client.
+func HACLDaemon() {
+	fsys := vfsxNew()
+	defer fsys.Cleanup()
+	n := &aclNet{addr: nd_bytes(4), prefix: int(nd_u8())}
+	vassume(n.prefix <= 32)
+	client := nd_bytes(4)
+	deny := nd_bool()
+	aclNets = map[string]*aclNet{"N0": n}
+	tok := "N0"
+	remote := "H:1"
+	if vsymbolic() {
+		aclClient = net.IPv4(client[0], client[1], client[2], client[3])
+	} else {
+		tok = fmt.Sprintf("%s/%d", net.IP(n.addr).String(), n.prefix)
+		remote = net.JoinHostPort(net.IP(client).String(), "1234")
+	}
+	rule := "allow " + tok
+	if deny {
+		rule = "deny " + tok
+	}
+	base := "/srv"
+	if p := fsys.RealPath(); p != "" {
+		base = p
+	}
+	fsysAddDir(fsys, "m")
+	vfsxAmbient(base+"/m", "m")
+	srv, err := NewServer([]Module{{Name: "m", Path: base + "/m", ACL: []string{rule}}}, DontRestrict(), WithStderr(io.Discard))
+	vassert(err == nil, "NewServer")
+	if err != nil {
+		return
+	}
+	head := "@RSYNCD: 27\nm\n"
+	in := []byte(head + "--server\n--sender\n-r\n.\nm/\n\n")
+	in = putI32(in, 0)
+	in = putI32(in, -1)
+	in = putI32(in, -1)
+	in = putI32(in, -1)
+	conn := newVconn(in)
+	before := len(fsys.Events)
+	err = srv.HandleDaemonConn(context.Background(), NewConnection(conn, conn, remote))
+	refused := deny && refContains(n, client, true)
+	out := string(conn.out)
+	if refused {
+		vassert(err != nil, "a refused client was served")
+		vassert(strings.Contains(out, "@ERROR"), "no @ERROR line for a refused client")
+		vassert(!strings.Contains(out, "@RSYNCD: OK"), "OK sent to a refused client")
+		vassert(len(out) < 80, "more than the greeting and the error line was sent to a refused client")
+		if vsymbolic() {
+			vassert(len(fsys.Events) == before, "file-system activity for a refused client")
+		}
+		vreach("daemon-refused")
+	} else {
+		vassert(strings.Contains(out, "@RSYNCD: OK"), "an admitted client did not get OK")
+		vreach("daemon-admitted")
+	}
+}
+
+func init() { verifHarnesses["HACLDaemon"] = HACLDaemon }
